@@ -27,6 +27,11 @@ def functions_truncated(rep, tier, seed):
         tp = [(x[:Dp], [row[:Dp] for row in C[:Dp]]) for (x, C) in pats]
         for fn in fns:
             c01.check_fn(rep, fn, tp, Dp, 2, 1, "vec", fn["real"], "real, D'=%d of %d" % (Dp, D))
+            # every element and direction with first non-zero order >= m (degrees D' that are / are not multiples of m)
+            for m in (2, 3):
+                grp = [p_ for p_ in tp if not any(p_[0][1:m])]
+                if grp and len(grp) < len(tp):
+                    c01.check_fn(rep, fn, grp[:24], Dp, 2, 1, "vec", fn["real"], "real, leading order >= %d everywhere, D'=%d of %d" % (m, Dp, D))
 
 
 def relational_ops(rep, seed):
